@@ -22,3 +22,25 @@ reg("C17", MC, "exhaustive enumeration of the 5-degree (W, E) lattice with exact
     "are compared with exact modular arithmetic. The 175 seam pairs of finding D7 are reported as KNOWN-FINDING; any other pair fails the check.",
     "Arcs that fit neither convention and widths within 0.01 degree of 360 are outside the quantifier and counted as not compared.",
     "DESIGN.md section 5, C17")
+reg("C13", MC, "bounded exhaustive enumeration of dyadic lattices of points, regions, pads, seeds and NaN patterns against exact predicates",
+    "get_region / inside / pad_region / scatter_points / project_region / maxabs / region validation are executed on every element of "
+    "small explicit lattices (every bound, one step inside and outside, degenerate regions, every array form incl. Fortran order and "
+    "strided views which exercise the preallocated out= buffers) and compared with exact closed-box arithmetic.",
+    "project_region is compared exactly only for maps whose extrema lie on its 101-node sampling lattice; for others containment in "
+    "the true box is required (the function cannot do better for an arbitrary callable).", "DESIGN.md section 5, C13")
+reg("C14", MC, "bounded exhaustive enumeration of lattice clouds x window geometries; exact closed-square membership per window",
+    "Every window of every rolling_window / expanding_window call over a finite family of clouds (full quarter-unit lattice; all k<=3 "
+    "subsets of 9 markers), sizes, steps, regions, adjust modes and frames is compared point by point with the exact closed square "
+    "around the returned centre; centres with the exact rational grid; joint coverage when step <= size; nesting of expanding windows.",
+    "Only scipy's cKDTree path exists here; points within 4 ulp of an edge with inexact float difference may go either way.",
+    "DESIGN.md section 5, C14")
+reg("C18", MC, "bounded exhaustive enumeration of grid shapes / forms / variable counts with coordinate-encoding cell values",
+    "All shapes {1..3}x{1..4} x coordinate forms x 0..4 variables x 0..3 extra coordinates x dims x dtypes; each cell value encodes "
+    "(variable, row, column), so any transposition, flip or mis-pairing in make_xarray_grid / grid_to_table / meshgrid conversions "
+    "changes an observed value; invalid inputs must raise.", "Exact equality on injective cell values.", "DESIGN.md section 5, C18")
+reg("C19", "fault_enumeration", "exhaustive enumeration of well-formed files, wrapped layouts and every single header corruption",
+    "Files from an independent writer in every combination of shape, region, blank subset, sentinel, formatting, dtype and source; "
+    "every wrapped-row layout; every single header fault. The loaded grid must equal the file (or the corrupted file as read by an "
+    "independent reader) or the call must raise; handles opened by the function must be closed on every path (counting wrapper "
+    "around builtins.open).", "The reference writer follows verde's documented header convention; all-blank files accept either outcome.",
+    "DESIGN.md section 5, C19")
